@@ -111,8 +111,9 @@ ReadPoint(o, cur) ==
 
 ObsE == Conc([v \in 1..NEv |-> ReadPoint(Ev.obs.E[v], E[v])])
 \* obs.S[v] = Scalar.Encode() bytes
-ReadScalar(bs) == IF BytesLtN(bs) THEN [st |-> "ok", v |-> OS2IPW(bs)] ELSE [st |-> "invalid", v |-> NZero]
-ObsS == Conc([v \in 1..NSv |-> ReadScalar(Ev.obs.S[v])])
+\* obs.Seq[v] = the stored representation equals the canonical one of that value (probe through Equal)
+ReadScalar(bs, canon) == IF BytesLtN(bs) /\ canon = 1 THEN [st |-> "ok", v |-> OS2IPW(bs)] ELSE [st |-> "invalid", v |-> NZero]
+ObsS == Conc([v \in 1..NSv |-> ReadScalar(Ev.obs.S[v], Ev.obs.Seq[v])])
 
 PointOfBytes(xb, yb) == C!Pt(OS2IPW(xb), OS2IPW(yb))     \* certificates on E'
 HCert(c) == [q0 |-> PointOfBytes(c.q0x, c.q0y),
